@@ -175,6 +175,8 @@ def _comparisons(prog, fact):
     if fact.op == "Eq" and fact.l[0] == "call" and fact.r[0] == "const":
         ps = _predicate_summary(prog, fact.l[1])
         truth = const_eval(fact.r)
+        if truth is None and fact.r[1] in (True, "true", False, "false"):
+            truth = int(fact.r[1] in (True, "true"))
         if ps is not None and truth in (0, 1):
             op, l, r = ps
             if truth == 0:
@@ -182,45 +184,90 @@ def _comparisons(prog, fact):
             l, r = _subst_params(l, fact.l[2]), _subst_params(r, fact.l[2])
             out.append((op, l, r))
             out.append((guards.SWAP[op], r, l))
+        # `(a..=b).contains(&x)` / `(a..b).contains(&x)` known true: a <= x and x <= b (x < b)
+        if truth == 1 and re.search(r"core::ops::range::Range(Inclusive)?::contains$", strip_generics(fact.l[1] or "")) and len(fact.l[2]) == 2:
+            rng, x = _peel(fact.l[2][0]), _peel(fact.l[2][1])
+            lo = hi = None
+            if rng[0] == "call" and strip_generics(rng[1] or "").endswith("RangeInclusive::new") and len(rng[2]) == 2:
+                lo, hi, hop = rng[2][0], rng[2][1], "Le"
+            elif rng[0] == "agg" and str(rng[1]).endswith("ops::range::Range") and len(rng[3]) == 2:
+                lo, hi, hop = rng[3][0], rng[3][1], "Lt"
+            if lo is not None:
+                out.append(("Ge", x, lo))
+                out.append((hop, x, hi))
     return out
 
 
 def guarded_interval(prog, fn, bb, si, operand, ty):
-    """Interval of `operand` (symbolic, of integer type `ty`) at statement (bb, si): shape interval narrowed by the
-    comparison facts that dominate the statement and still hold there.  Returns (lo, hi, [fact descriptions])."""
-    iv = shape_interval(operand, ty)
-    if iv is None:
+    """Interval of `operand` (symbolic, of integer type `ty`) at statement (bb, si): shape interval, interval arithmetic
+    over + - neg not of sub-expressions, narrowed by the comparison facts that dominate the statement and still hold
+    there.  Returns (lo, hi, [fact descriptions])."""
+    if ty not in INT_RANGE:
         return None
-    lo, hi = iv
-    used = []
+    cmps = []
     for f in guards.facts_at(fn, bb):
         if guards._killed(fn, f, (bb, si)):
             continue
-        for op, l, r in _comparisons(prog, f):
-            if not _same_value(l, operand):
-                continue
-            if op == "In" and r[0] == "set":
-                vals = [int(v) for v in r[1]]
-                lo, hi = max(lo, min(vals)), min(hi, max(vals))
-                used.append("in %s" % (sorted(vals)[:4],))
-                continue
-            c = const_eval(_peel(r))
-            if c is None:
-                continue
-            if op == "Le":
-                hi = min(hi, c)
-            elif op == "Lt":
-                hi = min(hi, c - 1)
-            elif op == "Ge":
-                lo = max(lo, c)
-            elif op == "Gt":
-                lo = max(lo, c + 1)
-            elif op == "Eq":
-                lo, hi = max(lo, c), min(hi, c)
-            else:
-                continue
-            used.append("%s %d" % (op, c))
-    return lo, hi, used
+        cmps.extend(_comparisons(prog, f))
+    used = []
+    iv = _interval(cmps, operand, ty, used, 4)
+    return iv[0], iv[1], used
+
+
+def _interval(cmps, sym, ty, used, depth):
+    lo, hi = shape_interval(sym, ty) or INT_RANGE[ty]
+    tlo, thi = INT_RANGE[ty]
+    s = _peel(sym)
+    if s[0] == "field" and s[2] in (0, "0") and s[1][0] == "bin":
+        s = s[1]
+    if depth > 0 and s[0] == "bin":
+        op = s[1].replace("WithOverflow", "").replace("Unchecked", "")
+        if op in ("Add", "Sub"):
+            a = _interval(cmps, s[2], ty, used, depth - 1)
+            b = _interval(cmps, s[3], ty, used, depth - 1)
+            x = (a[0] + b[0], a[1] + b[1]) if op == "Add" else (a[0] - b[1], a[1] - b[0])
+            if tlo <= x[0] and x[1] <= thi:       # no wrap possible: the interval is exact
+                lo, hi = max(lo, x[0]), min(hi, x[1])
+    elif depth > 0 and s[0] == "un" and s[1] in ("Neg", "Not"):
+        a = _interval(cmps, s[2], ty, used, depth - 1)
+        if s[1] == "Neg":
+            x = (-a[1], -a[0])
+        elif tlo < 0:
+            x = (-1 - a[1], -1 - a[0])
+        else:
+            x = (thi - a[1], thi - a[0])
+        if tlo <= x[0] and x[1] <= thi:
+            lo, hi = max(lo, x[0]), min(hi, x[1])
+    elif depth > 0 and s[0] == "cast" and s[4] == "IntToInt" and is_narrowing(s[2], s[3]) is False and s[2] in INT_RANGE:
+        a = _interval(cmps, s[1], s[2], used, depth - 1)
+        lo, hi = max(lo, a[0]), min(hi, a[1])
+    for op, l, r in cmps:
+        if not _same_value(l, sym):
+            continue
+        if op == "In" and r[0] == "set":
+            vals = [int(v) for v in r[1]]
+            lo, hi = max(lo, min(vals)), min(hi, max(vals))
+            used.append("in %s" % (sorted(vals)[:4],))
+            continue
+        c = const_eval(_peel(r))
+        if c is None:
+            continue
+        if op == "Le":
+            hi = min(hi, c)
+        elif op == "Lt":
+            hi = min(hi, c - 1)
+        elif op == "Ge":
+            lo = max(lo, c)
+        elif op == "Gt":
+            lo = max(lo, c + 1)
+        elif op == "Eq":
+            lo, hi = max(lo, c), min(hi, c)
+        else:
+            continue
+        d = "%s %d" % (op, c)
+        if d not in used:
+            used.append(d)
+    return lo, hi
 
 
 def fits(lo, hi, to):
@@ -369,3 +416,415 @@ def derives_from_call(sym, callee_rx, bb=None):
 
 def derives_from_param(sym, idx):
     return any(sub[0] == "param" and sub[1] == idx for sub in sym_walk(sym))
+
+
+# ---------------------------------------------------------------- exact evaluation of integer -> big-integer conversions
+#
+# A finite-domain partial evaluation (engine E2 style) of one small conversion function at chosen boundary points: the MIR of
+# the function (and of same-crate helpers / closures it calls) is evaluated over exact Python integers, wrapping to the type
+# width at every typed operation, following the switches the concrete value determines.  Byte containers (arrays, slices,
+# Vec<u8>, Bytes, byte iterators) are abstracted to (big-endian unsigned magnitude, length); conversions between containers
+# and a leading-zero strip are the identity on the magnitude.  Anything outside the modelled set raises Unrecognised, which
+# the rule reports (fail closed).  The facts come from the rustc driver; no compiled pallas code is run.
+
+class Unrecognised(Exception):
+    pass
+
+
+class Panics(Exception):
+    pass
+
+
+_WIDTH = {"u8": 8, "u16": 16, "u32": 32, "u64": 64, "u128": 128, "usize": 64, "i8": 8, "i16": 16, "i32": 32, "i64": 64,
+          "i128": 128, "isize": 64}
+
+
+def _wrap(v, ty):
+    if ty == "bool":
+        return 1 if v else 0
+    if ty not in _WIDTH:
+        raise Unrecognised("integer type %s" % ty)
+    w = _WIDTH[ty]
+    v &= (1 << w) - 1
+    if ty.startswith("i") and v >= 1 << (w - 1):
+        v -= 1 << w
+    return v
+
+
+def _in(v, ty):
+    lo, hi = INT_RANGE[ty]
+    return lo <= v <= hi
+
+
+def I(v, ty):
+    return ("int", v, ty)
+
+
+def _bytes(mag, n):
+    return ("bytes", mag, n)
+
+
+def _adt(adt, variant, vidx, fields):
+    return ("adt", adt, variant, vidx, list(fields))
+
+
+_SOME = lambda x: _adt("core::option::Option", "Some", 1, [x])
+_NONE = _adt("core::option::Option", "None", 0, [])
+
+_BYTES_IDENTITY = re.compile(
+    r"(alloc::slice::<impl \[[^\]]*\]>::(to_vec|into_vec)|::to_owned|::into_iter|::iter|::copied|::cloned|::collect(::<.*>)?|::as_slice|::as_ref|::deref|::borrow|"
+    r"::clone|::into_boxed_slice|::into_vec|alloc::vec::Vec::<u8>::from|bytes::bytes::Bytes::(from|copy_from_slice)|"
+    r"core::convert::From<.*>>::from|core::convert::Into<.*>>::into|::by_ref|::as_bytes)(::<.*>)?$")
+
+
+class Concrete:
+    """Concrete evaluator of one MIR body over exact integers."""
+
+    def __init__(self, prog, budget=4000):
+        self.prog = prog
+        self.budget = budget
+
+    # -- places / operands
+    def _proj(self, v, proj):
+        for e in proj:
+            k = e[0]
+            if k == "deref":
+                continue
+            if k == "downcast":
+                if v[0] == "adt" and e[2] is not None and v[2] != e[2]:
+                    raise Unrecognised("downcast to %s of a %s value" % (e[2], v[2]))
+                continue
+            if k == "field":
+                if v[0] == "adt":
+                    v = v[4][e[1]]
+                elif v[0] == "tuple":
+                    v = v[1][e[1]]
+                else:
+                    raise Unrecognised("field of %s" % v[0])
+                continue
+            raise Unrecognised("projection %s" % k)
+        return v
+
+    def place(self, env, p):
+        l = p if isinstance(p, int) else p[0]
+        if l not in env:
+            raise Unrecognised("read of an unset local _%d" % l)
+        return self._proj(env[l], [] if isinstance(p, int) else p[1])
+
+    def operand(self, env, o):
+        c = o.get("k")
+        if c is not None:
+            if "v" in c:
+                v = c["v"]
+                if isinstance(v, bool):
+                    v = int(v)
+                return I(int(v), c["ty"])
+            if "fn" in c:
+                return ("fn", c["fn"])
+            return ("opaque", c.get("sym"))
+        p = o.get("c", o.get("m"))
+        if p is None:
+            raise Unrecognised("operand")
+        return self.place(env, p)
+
+    # -- rvalues
+    def binop(self, op, l, r, lty):
+        if l[0] != "int" or r[0] != "int":
+            raise Unrecognised("binary %s on non-integers" % op)
+        a, b, ty = l[1], r[1], l[2]
+        checked = op.endswith("WithOverflow")
+        base = op.replace("WithOverflow", "").replace("Unchecked", "")
+        if base in CMP:
+            return I(int({"Lt": a < b, "Le": a <= b, "Gt": a > b, "Ge": a >= b, "Eq": a == b, "Ne": a != b}[base]), "bool")
+        if base == "Add":
+            x = a + b
+        elif base == "Sub":
+            x = a - b
+        elif base == "Mul":
+            x = a * b
+        elif base in ("Div", "Rem"):
+            if b == 0:
+                raise Panics("division by zero")
+            q = abs(a) // abs(b) * (1 if (a < 0) == (b < 0) else -1)
+            x = q if base == "Div" else a - q * b
+        elif base == "BitAnd":
+            x = a & b
+        elif base == "BitOr":
+            x = a | b
+        elif base == "BitXor":
+            x = a ^ b
+        elif base in ("Shl", "Shr"):
+            w = _WIDTH.get(ty)
+            if w is None:
+                raise Unrecognised("shift of %s" % ty)
+            if checked:
+                return ("tuple", [I(_wrap(a << (b % w) if base == "Shl" else a >> (b % w), ty), ty), I(int(not 0 <= b < w), "bool")])
+            if not 0 <= b < w:
+                raise Panics("shift by %d" % b)
+            x = a << b if base == "Shl" else a >> b
+        else:
+            raise Unrecognised("binary operator %s" % op)
+        if ty == "bool":
+            return I(x & 1, "bool")
+        if checked:
+            return ("tuple", [I(_wrap(x, ty), ty), I(int(not _in(x, ty)), "bool")])
+        return I(_wrap(x, ty), ty)
+
+    def rvalue(self, env, rv, f):
+        k = rv["k"]
+        if k == "use":
+            return self.operand(env, rv["x"])
+        if k in ("ref", "rawptr"):
+            return self.place(env, rv["p"])
+        if k == "cast":
+            x = self.operand(env, rv["x"])
+            ck = rv["ck"]
+            if ck == "IntToInt":
+                if x[0] != "int":
+                    raise Unrecognised("integer cast of %s" % x[0])
+                return I(_wrap(x[1], rv["to"]), rv["to"])
+            if ck.startswith("PointerCoercion(Unsize"):
+                return x
+            raise Unrecognised("cast %s" % ck)
+        if k == "bin":
+            return self.binop(rv["op"], self.operand(env, rv["l"]), self.operand(env, rv["r"]), rv.get("lty"))
+        if k == "un":
+            x = self.operand(env, rv["x"])
+            if x[0] != "int":
+                raise Unrecognised("unary on %s" % x[0])
+            if rv["op"] == "Neg":
+                return I(_wrap(-x[1], x[2]), x[2])
+            if rv["op"] == "Not":
+                return I(1 - x[1], "bool") if x[2] == "bool" else I(_wrap(~x[1], x[2]), x[2])
+            raise Unrecognised("unary %s" % rv["op"])
+        if k == "discr":
+            v = self.place(env, rv["p"])
+            if v[0] != "adt":
+                raise Unrecognised("discriminant of %s" % v[0])
+            return I(v[3], "isize")
+        if k == "agg":
+            fields = [self.operand(env, x) for x in rv["fields"]]
+            ak = rv["ak"]
+            if ak == "adt":
+                return _adt(rv["adt"], rv["variant"], rv.get("vidx", 0), fields)
+            if ak == "tuple":
+                return ("tuple", fields)
+            if ak == "closure":
+                return ("closure", rv["def"], fields)
+            if ak == "array" and rv.get("ety") == "u8" and all(x[0] == "int" for x in fields):
+                m = 0
+                for x in fields:
+                    m = (m << 8) | (x[1] & 0xFF)
+                return _bytes(m, len(fields))
+            raise Unrecognised("aggregate %s" % ak)
+        raise Unrecognised("rvalue %s" % k)
+
+    # -- calls
+    def call(self, t, args, dest_ty, depth):
+        full = t.get("ffull") or t.get("f") or t.get("gfull") or t.get("g") or "<indirect>"
+        path = t.get("f") or t.get("g") or ""
+        name = strip_generics(path).split("::")[-1]
+        a0 = args[0] if args else None
+        g = self.prog.fns.get(path)
+        if g is not None:
+            if depth <= 0:
+                raise Unrecognised("call depth")
+            return self.run(g, args, depth - 1)
+        m = re.search(r"core::num::<impl ([iu]\d+|[iu]size)>::(\w+)$", path)
+        if m and a0 is not None and a0[0] == "int":
+            return self.int_method(m.group(1), m.group(2), args)
+        m = re.search(r"core::convert::num::<impl core::convert::TryFrom<(\w+)> for (\w+)>::try_from$", path)
+        if m and a0 is not None and a0[0] == "int":
+            to = m.group(2)
+            if _in(a0[1], to):
+                return _adt("core::result::Result", "Ok", 0, [I(a0[1], to)])
+            return _adt("core::result::Result", "Err", 1, [("opaque", "TryFromIntError")])
+        if a0 is not None and a0[0] == "int" and re.search(r"core::convert::(num::<impl core::convert::From<\w+> for \w+>::from|Into<\w+>>::into|From<\w+>>::from)$", path):
+            to = dest_ty
+            if to in INT_RANGE and _in(a0[1], to):
+                return I(a0[1], to)
+            raise Unrecognised("integer conversion %s" % full)
+        if re.search(r"core::result::Result::<.*>::(is_ok|is_err|ok)$|core::result::Result::(is_ok|is_err|ok)$", strip_generics(path)) and a0 is not None and a0[0] == "adt":
+            if name == "ok":
+                return _SOME(a0[4][0]) if a0[2] == "Ok" else _NONE
+            return I(int((a0[2] == "Ok") == (name == "is_ok")), "bool")
+        if re.search(r"core::option::Option::(is_some|is_none)$", strip_generics(path)) and a0 is not None and a0[0] == "adt":
+            return I(int((a0[2] == "Some") == (name == "is_some")), "bool")
+        if re.search(r"core::ops::range::RangeInclusive::new$", strip_generics(path)) and len(args) == 2:
+            return _adt("core::ops::range::RangeInclusive", "RangeInclusive", 0, list(args))
+        if re.search(r"core::ops::range::Range(Inclusive)?::contains$", strip_generics(path)) and len(args) == 2 and a0[0] == "adt" and args[1][0] == "int":
+            lo, hi = a0[4][0], a0[4][1]
+            if lo[0] != "int" or hi[0] != "int":
+                raise Unrecognised("range bounds")
+            incl = "Inclusive" in a0[1]
+            return I(int(lo[1] <= args[1][1] and (args[1][1] <= hi[1] if incl else args[1][1] < hi[1])), "bool")
+        if re.search(r"core::cmp::Ord::(min|max)$|core::cmp::(min|max)$", strip_generics(path)) and len(args) == 2 and all(x[0] == "int" for x in args):
+            return I((min if name == "min" else max)(args[0][1], args[1][1]), args[0][2])
+        # byte containers
+        if a0 is not None and a0[0] == "bytes":
+            if name == "skip_while" and len(args) == 2:
+                self.require_zero_test(args[1], depth)
+                mag = a0[1]
+                return _bytes(mag, (mag.bit_length() + 7) // 8)
+            if name == "index" and len(args) == 2 and args[1][0] == "adt" and args[1][1].endswith("RangeFrom"):
+                st = args[1][4][0]
+                if st[0] != "int" or a0[2] is None or st[1] > a0[2]:
+                    raise Unrecognised("slice bounds")
+                n = a0[2] - st[1]
+                return _bytes(a0[1] & ((1 << (8 * n)) - 1), n)
+            if _BYTES_IDENTITY.search(path) or _BYTES_IDENTITY.search(strip_generics(path)):
+                if dest_ty.startswith("core::option::Option<"):
+                    return _SOME(a0)
+                return a0
+        if re.search(r"core::convert::Into<.*>>::into$|core::convert::From<.*>>::from$", path) and a0 is not None and a0[0] == "adt":
+            if dest_ty.startswith("core::option::Option<") and not a0[1].startswith("core::option::Option"):
+                return _SOME(a0)
+            return a0
+        raise Unrecognised("call of %s" % short_path(full))
+
+    def int_method(self, ty, name, args):
+        a = args[0][1]
+        b = args[1][1] if len(args) > 1 and args[1][0] == "int" else None
+        uty = "u" + ty[1:] if ty.startswith("i") else ty
+        w = _WIDTH[ty]
+        if name == "unsigned_abs":
+            return I(abs(a), uty)
+        if name == "abs":
+            if not _in(abs(a), ty):
+                raise Panics("abs overflow")
+            return I(abs(a), ty)
+        if name == "wrapping_abs":
+            return I(_wrap(abs(a), ty), ty)
+        if name == "wrapping_neg":
+            return I(_wrap(-a, ty), ty)
+        if name in ("to_be_bytes",):
+            return _bytes(a & ((1 << w) - 1), w // 8)
+        if name == "checked_neg":
+            return _SOME(I(-a, ty)) if _in(-a, ty) else _NONE
+        if name == "checked_abs":
+            return _SOME(I(abs(a), ty)) if _in(abs(a), ty) else _NONE
+        if name in ("is_negative", "is_positive"):
+            return I(int(a < 0 if name == "is_negative" else a > 0), "bool")
+        if name == "signum":
+            return I((a > 0) - (a < 0), ty)
+        if b is not None:
+            ops = {"add": a + b, "sub": a - b, "mul": a * b}
+            for pre in ("wrapping_", "checked_", "saturating_"):
+                if name.startswith(pre) and name[len(pre):] in ops:
+                    x = ops[name[len(pre):]]
+                    if pre == "wrapping_":
+                        return I(_wrap(x, ty), ty)
+                    if pre == "checked_":
+                        return _SOME(I(x, ty)) if _in(x, ty) else _NONE
+                    lo, hi = INT_RANGE[ty]
+                    return I(min(max(x, lo), hi), ty)
+        raise Unrecognised("integer method %s::%s" % (ty, name))
+
+    def require_zero_test(self, clo, depth):
+        """The predicate of a leading-byte strip must be `byte == 0` (true for 0, false for every other byte)."""
+        if clo[0] == "closure":
+            g = self.prog.fns.get(clo[1])
+        elif clo[0] == "fn":
+            g = self.prog.fns.get(clo[1])
+        else:
+            g = None
+        if g is None:
+            raise Unrecognised("strip predicate that is not a closure of this crate")
+        for b in (0, 1, 0x7f, 0x80, 0xff):
+            r = self.run(g, [clo, I(b, "u8")][-g.argc:] if g.argc <= 2 else [clo, I(b, "u8")], depth - 1)
+            if r[0] != "int" or r[1] != int(b == 0):
+                raise Unrecognised("skip_while predicate other than `byte == 0`")
+
+    # -- bodies
+    def run(self, f, args, depth=4):
+        if len(args) != f.argc:
+            raise Unrecognised("arity of %s" % f.path)
+        env = {i + 1: a for i, a in enumerate(args)}
+        bb = 0
+        while True:
+            self.budget -= 1
+            if self.budget <= 0:
+                raise Unrecognised("evaluation budget exhausted (loop)")
+            blk = f.blocks[bb]
+            for s in blk["st"]:
+                if s[0] == "a":
+                    v = self.rvalue(env, s[2], f)
+                    p = s[1]
+                    if isinstance(p, int) or not p[1]:
+                        env[p if isinstance(p, int) else p[0]] = v
+                    else:
+                        raise Unrecognised("assignment through a projection")
+                elif s[0] == "setdiscr":
+                    raise Unrecognised("set discriminant")
+            t = blk["term"]
+            k = t["k"]
+            if k == "goto" or k == "drop":
+                bb = t["t"]
+            elif k == "return":
+                if 0 not in env:
+                    if f.locals[0]["ty"] == "()":
+                        return ("tuple", [])
+                    raise Unrecognised("return without a value")
+                return env[0]
+            elif k == "switch":
+                d = self.operand(env, t["d"])
+                if d[0] != "int":
+                    raise Unrecognised("switch on %s" % d[0])
+                nxt = t["o"]
+                for val, tgt in t["ts"]:
+                    if int(val) == d[1]:
+                        nxt = tgt
+                        break
+                bb = nxt
+            elif k == "assert":
+                c = self.operand(env, t["cond"])
+                if c[0] != "int":
+                    raise Unrecognised("assert on %s" % c[0])
+                if bool(c[1]) != bool(t["expected"]):
+                    raise Panics(str(t.get("kind")))
+                bb = t["t"]
+            elif k == "call":
+                args2 = [self.operand(env, a) for a in t["args"]]
+                d = t["dest"]
+                dl = d if isinstance(d, int) else d[0]
+                if not isinstance(d, int) and d[1]:
+                    raise Unrecognised("call result stored through a projection")
+                env[dl] = self.call(t, args2, f.local_ty(dl), depth)
+                if t.get("t") is None:
+                    raise Unrecognised("diverging call")
+                bb = t["t"]
+            else:
+                raise Unrecognised("terminator %s" % k)
+
+
+def find_adt(v, adt_rx):
+    """First ADT value whose path matches adt_rx inside a concrete value tree."""
+    rx = re.compile(adt_rx) if isinstance(adt_rx, str) else adt_rx
+    if not isinstance(v, tuple):
+        return None
+    if v[0] == "adt":
+        if rx.search(v[1]):
+            return v
+        for x in v[4]:
+            r = find_adt(x, rx)
+            if r is not None:
+                return r
+    elif v[0] == "tuple":
+        for x in v[1]:
+            r = find_adt(x, rx)
+            if r is not None:
+                return r
+    return None
+
+
+def bigint_sample_points(ty):
+    """Boundary points of the parameter type inside the CBOR integer range -2^64 ..= 2^64-1."""
+    lo, hi = INT_RANGE[ty]
+    lo, hi = max(lo, -2**64), min(hi, 2**64 - 1)
+    pts = [0, 1, -1, 42, -42, 255, 256, -256, -257, 2**63 - 1, -2**63, 2**63, 2**63 + 12345, 2**64 - 1, -2**63 - 1, -2**63 - 12345, -2**64 + 1, -2**64,
+           2**32, -2**32, lo, hi]
+    out = []
+    for p in pts:
+        if lo <= p <= hi and p not in out:
+            out.append(p)
+    return out
